@@ -33,6 +33,7 @@ func main() {
 	list := flag.Bool("list", false, "list obligations only")
 	noEvidence := flag.Bool("no-evidence", false, "do not write the evidence file")
 	verbose := flag.Bool("v", false, "print obligations that took more than a second")
+	showLoops := flag.String("loops", "", "print the loop ordinals of a function and exit")
 	devContracts := flag.Bool("dev", false, "use /verif/contracts/verif_contracts.go even if the repo has its own copy (development)")
 	flag.Parse()
 	if s := os.Getenv("VERIF_SEED"); s != "" && *seed == 0 {
@@ -54,6 +55,44 @@ func main() {
 		os.Exit(2)
 	}
 	p.computeMods()
+	if *showLoops != "" {
+		fn := p.funcs[*showLoops]
+		if fn == nil {
+			fmt.Println("no such function")
+			os.Exit(2)
+		}
+		f := newFrame(newEnc(p), p, fn, "", true)
+		f.findLoops()
+		type row struct {
+			ord  int
+			line string
+		}
+		var rows []row
+		for h, li := range f.loops {
+			pos := "?"
+			for _, in := range h.Instrs {
+				if in.Pos().IsValid() {
+					pos = p.pos(in.Pos()) + "  " + p.srcLine(in.Pos())
+					break
+				}
+			}
+			if pos == "?" {
+				for b := range li.blocks {
+					for _, in := range b.Instrs {
+						if in.Pos().IsValid() && pos == "?" {
+							pos = p.pos(in.Pos()) + "  " + p.srcLine(in.Pos())
+						}
+					}
+				}
+			}
+			rows = append(rows, row{li.ordinal, fmt.Sprintf("block %d  %s", h.Index, pos)})
+		}
+		sort.Slice(rows, func(i, j int) bool { return rows[i].ord < rows[j].ord })
+		for _, r := range rows {
+			fmt.Printf("loop %d: %s\n", r.ord, r.line)
+		}
+		return
+	}
 
 	timeout := 10
 	if *tier == "thorough" {
@@ -66,9 +105,6 @@ func main() {
 			continue
 		}
 		if c.Inline || c.Pure {
-			continue
-		}
-		if *prop != "" && !contractServes(c, *prop) {
 			continue
 		}
 		names = append(names, name)
@@ -116,7 +152,9 @@ func main() {
 			run.items = append(run.items, &OblResult{Obl: o, Enc: enc})
 			n++
 		}
-		run.funcs = append(run.funcs, funcInfo{name, n, enc})
+		if n > 0 {
+			run.funcs = append(run.funcs, funcInfo{name, n, enc})
+		}
 	}
 	// lemmas instantiated by the encodings above are proved as obligations of the same run
 	var lnames []string
@@ -235,7 +273,7 @@ func autoProps(c *Contract, o *Obl) []string {
 // claimed: automatic obligation classes are only claimed when the contract asks for them.
 func claimed(c *Contract, o *Obl) bool {
 	switch o.Class {
-	case "panic", "overflow", "lock", "frame":
+	case "panic", "overflow", "lock", "frame", "reflect":
 		_, ok := c.Checks[o.Class]
 		return ok
 	}
